@@ -254,6 +254,14 @@ def run(ctx):
     depth = 4 if ctx.quick else 6
     mc = tlc.run("RecordSM_MC", MC_CFG % depth, ctx.workdir, dump=True, timeout=3400)
     ctx.model(mc, f"RecordSM_MC all histories of <= {depth} calls over 3 universes")
+    # implementation-shaped companion: the repaired create_regions design is sound for every sequence of span areas in
+    # every processing order; the single sweep it replaced is the negative control
+    impl_cfg = "SPECIFICATION Spec\nCONSTANTS\n  MaxAreas = %d\n  RingLen = %d\nINVARIANT %s\n"
+    impl = tlc.run("RegionsImpl_MC", impl_cfg % ((3, 6) if ctx.quick else (3, 8)) + ("RepairedDesignSound",), ctx.workdir,
+                   tag="_impl", timeout=3000)
+    ctx.model(impl, "RegionsImpl_MC: repaired create_regions design vs connected components, all area sequences")
+    sweep = tlc.run("RegionsImpl_MC", impl_cfg % (4, 6, "SweepDesignSound"), ctx.workdir, tag="_sweep", timeout=3000)
+    ctx.expect_violation(sweep, "SweepDesignSound", "the pre-repair single sweep + first/last merge is not sound (P11 on the model)")
     universes = [norm_uni(u) for u in tlc.printed_value(mc.out, "UNIVERSES")]
     cases = []
     next_id = 0
